@@ -28,6 +28,14 @@ CLAUSES = [
     G.P({"d": "x", "b": "${d}", "c": "${d}", "a": ["${b}", "${c}"], "a2": "${b}${c}", "a3": {"p": "${b}", "q": "${c}"}}),
     G.P({"v": {"k": 1}, "a": "${v}"}, {"a": "${v}"}, {"a": "${v}"}),
     G.P({"t": {"k": "${u}"}, "u": "x", "r1": "${t:k}", "r2": "${t:k}", "r3": "${t}"}),
+    # the same target reached twice at each point where the resolution state is copied
+    G.P({"d": {"k": "v"}, "t": "${d}"}, {"t": "${d}"}, {"u": "${t:k}"}),                       # layers met during a path lookup
+    G.P({"c": {"k": "v"}, "a": "${c}", "b": "${c}", "t": "${a}"}, {"t": "${b}"}, {"u": "${t:k}", "w": "x${t:k}"}),
+    G.P({"d": ["x"], "t": "${d}"}, {"t": "${d}"}, {"t": "${d}"}),                              # layers of one key
+    G.P({"c": ["x"], "a": "${c}", "t": "${a}"}, {"t": "${c}"}),
+    G.P({"d": "s", "t": "${d}-${d}", "u": "${d}${d}${d}"}),                                     # pieces of a string
+    G.P({"sel": "k", "d": {"k": "v"}, "t": ["${d:${sel}}", "${d:${sel}}"], "u": "${d:${sel}}${d:${sel}}"}),
+    G.P({"p": {"t": "${d}"}, "d": {"k": 1}}, {"p": {"t": "${d}"}}, {"u": "${p:t:k}"}),
     chain(10), chain(62), chain(63), chain(64), chain(65), chain(66),
     G.P(dict([("c%d" % i, "p${c%d}" % (i + 1)) for i in range(64)] + [("c64", "e")])),
 ]
@@ -52,6 +60,8 @@ class C08(ParamsProp):
             layers = G.shaped_stack(r, r.range(2, 6), r.range(1, 3), r.range(0, 2), 0, p_stray=3, strs=["x", "y", "a"])
             G.add_refs(r, layers, r.range(2, 8), p_cyclic=r.choice([0, 15, 40]), p_dangling=2, p_embedded=30)
             yield {"op": "params", "layers": layers}
+            if i % 2 == 0:
+                yield {"op": "params", "layers": G.clone_point_diamond(Rng(seed, "C08d", i))}
 
     def nontrivial(self, req, impl, reply):
         return str(req["layers"]).count("${") >= 2
